@@ -111,3 +111,60 @@ fn c07_o1_prefilter_inner_product_l2() {
 fn c07_o1_prefilter_inner_product_l2__witness() {
     ip_body(true);
 }
+
+/// Cosine, prefix_dims = 1, len = 2, coarser grid (multiples of 1/4 in [-2,2]) so that the oracle's
+/// squared quantities are exact in f32.  The statistics come from the real `embedding_stats`.
+/// Oracle (exact, sqrt-free): let t = 1 - worst, D = q.e, N = |q|^2 |e|^2 > 0.
+///   strictly inside  <=>  D/sqrt(N) > t, decided by signs and squares:
+///     t < 0, D >= 0                         -> inside
+///     t < 0, D <  0, D^2 (1+2^-8) < t^2 N   -> inside (with margin)
+///     t >= 0, D > 0, D^2 > t^2 N (1+2^-8)   -> inside (with margin)
+fn grid4() -> f32 {
+    let i: i8 = kani::any();
+    kani::assume(i >= -8 && i <= 8);
+    (i as f32) * 0.25
+}
+
+fn cosine_body(witness: bool) {
+    let q = [grid4(), grid4()];
+    let e = [grid4(), grid4()];
+    let d = q[0] * e[0] + q[1] * e[1];
+    let nq = q[0] * q[0] + q[1] * q[1];
+    let ne = e[0] * e[0] + e[1] * e[1];
+    kani::assume(nq > 0.0 && ne > 0.0);
+    let n = nq * ne;
+    let worst = {
+        let i: i8 = kani::any();
+        kani::assume(i >= 0 && i <= 8); // cosine distance in [0, 2]
+        (i as f32) * 0.25
+    };
+    let t = 1.0 - worst;
+    let qs = QueryHashCache::embedding_stats(&q, 1);
+    let es = QueryHashCache::embedding_stats(&e, 1);
+    let affects = QueryHashCache::insert_can_affect_cached_boundary(&q, qs, &e, es, 1, worst, DistanceMetric::Cosine);
+    if witness {
+        kani::cover!(affects && d < 0.0 && t < 0.0, "obtuse insert inside an obtuse boundary");
+        kani::cover!(!affects, "pre-filter prunes some insert");
+        return;
+    }
+    let m = 1.0 + 0.00390625; // 1 + 2^-8
+    let inside = if t < 0.0 {
+        d >= 0.0 || (d * d) * m < (t * t) * n
+    } else {
+        d > 0.0 && (d * d) > (t * t) * n * m
+    };
+    if inside {
+        assert!(affects, "C07: an insert strictly inside the cached distance boundary is not pruned (cosine)");
+    }
+}
+
+#[kani::proof]
+#[kani::unwind(5)]
+fn c07_o1_prefilter_cosine_l2() {
+    cosine_body(false);
+}
+#[kani::proof]
+#[kani::unwind(5)]
+fn c07_o1_prefilter_cosine_l2__witness() {
+    cosine_body(true);
+}
